@@ -14,7 +14,12 @@
 (***************************************************************************)
 EXTENDS Paths, FiniteSets, TLC, Json
 
-Alphabet == {"..", ".", "", "A", "B", "...", "A..B", "destZ"}    \* destZ: a sibling whose name merely starts like the destination
+Alphabet == {"..", ".", "", "A", "B", "...", "A..B", "destZ", "E.."}    \* destZ: a sibling whose name merely starts like the destination
+\* "E..": a component that is not ".." in the archive but BECOMES ".." on the way to the backend (the extraction converts names that
+\* are not valid UTF-8 from their detected character set: escape sequences of ISO-2022-JP vanish in the conversion).  What counts
+\* is where the entry really lands: Eff gives the component as the backend sees it.
+Eff(c) == IF c = "E.." THEN ".." ELSE c
+PlainNames == {"A", "B", "...", "A..B", "destZ"}
 Stems == {"S", "..", ".", "", "A..B"}
 DestShapes == {"abs", "rel", "trailing", "dotdot", "dotdot2"}
 Kinds == {"file", "dir", "nested"}
@@ -25,6 +30,9 @@ vars == <<comps, leadingSep, kind, stem, destShape>>
 Names == UNION {[1..n -> Alphabet] : n \in 1..3}
 Init == /\ comps \in Names /\ leadingSep \in BOOLEAN /\ kind \in Kinds /\ destShape \in DestShapes
         /\ stem \in (IF kind = "nested" THEN Stems ELSE {"S"})
+        \* a converted name: only the path of a FILE entry is converted (directories are created under their raw name); its last
+        \* component is an ordinary name (it carries the bytes that force the conversion)
+        /\ ((\E i \in 1..Len(comps) : comps[i] = "E..") => (kind = "file" /\ comps[Len(comps)] \in PlainNames))
 Next == UNCHANGED vars
 Spec == Init /\ [][Next]_vars
 
@@ -36,7 +44,9 @@ Dest == CASE destShape = "abs" -> [abs |-> TRUE, comps |-> <<"R", "dest">>]
           [] destShape = "dotdot2" -> [abs |-> FALSE, comps |-> <<"..", "..">>]
 \* for a nested archive the entry name gets the stem appended as its last component ("<stem>.zip")
 EntryComps == IF kind = "nested" THEN Append(comps, stem) ELSE comps
-Target == Join(Dest, [abs |-> FALSE, comps |-> EntryComps])
+\* the joined path is cleaned with the names as they are in the archive, and only then converted
+Converted(p) == [abs |-> p.abs, comps |-> [i \in 1..Len(p.comps) |-> Eff(p.comps[i])]]
+Target == Converted(Clean(Join(Dest, [abs |-> FALSE, comps |-> EntryComps])))
 EntryEscapes == ~Inside(Target, Dest)
 \* a nested archive "<stem>.zip" at path P is unpacked into Dir(P)/<stem>; its content lands beneath that
 NestedRoot == Join(Dir(Clean(Join(Dest, [abs |-> FALSE, comps |-> comps \o <<"X">>]))), [abs |-> FALSE, comps |-> <<stem>>])
